@@ -110,6 +110,7 @@ void vp_detector()
 {
     TripWireDetector d = make_detector(0);
     bool a = d.isTripped();
+    vp_log(1900, a ? 1 : 0);
     if (a) {
         vp_assert(vp_g(G_DTOR_BEGUN) == 1, 1900);
         vp_hb_data_read(0);
@@ -139,6 +140,7 @@ void vp_other()
 void vp_final()
 {
     TripWireDetector d = make_detector(0);
+    vp_log(1905, d.isTripped() ? 1 : 0);
     vp_assert(d.isTripped(), 1905);                  // after the trigger died the line is tripped for good
 }
 // sequential facts: out-of-range index is rejected with an exception; moved-from triggers are harmless
